@@ -189,7 +189,7 @@ def run(ctx) -> None:
     base = rng.randint(0, 10**6) * 1000
     done = 0
     for k, n, s in work:
-        if ctx.out_of_time(12.0):
+        if done >= 150 and ctx.out_of_time(12.0):       # the first 150 calls are a guaranteed minimum
             ctx.count("work_items_skipped_for_time")
             continue
         seed = base + s if s else s       # seed 0 always included
